@@ -98,3 +98,45 @@ fn wakeup_before_wait_is_not_lost() {
     el.dispatch(Duration::from_secs(5), &mut ()).unwrap();
     assert!(t.elapsed() < Duration::from_secs(2), "a wake-up issued just before the wait was lost");
 }
+
+#[test]
+fn block_on_stop_then_wake_gives_none() {
+    // stop() is requested and THEN the future is woken (it would complete on its next poll): the stop
+    // request came first, so block_on returns None
+    use std::sync::atomic::AtomicBool as AB;
+    struct ReadyWhen(Arc<AB>, Arc<std::sync::Mutex<Option<std::task::Waker>>>);
+    impl Future for ReadyWhen {
+        type Output = u32;
+        fn poll(self: Pin<&mut Self>, cx: &mut Context<'_>) -> Poll<u32> {
+            if self.0.load(Ordering::SeqCst) { return Poll::Ready(7); }
+            *self.1.lock().unwrap() = Some(cx.waker().clone());
+            Poll::Pending
+        }
+    }
+    // from another thread
+    let mut el: EventLoop<()> = EventLoop::try_new().unwrap();
+    let sig = el.get_signal();
+    let (flag, slot) = (Arc::new(AB::new(false)), Arc::new(std::sync::Mutex::new(None::<std::task::Waker>)));
+    let (f2, s2) = (flag.clone(), slot.clone());
+    std::thread::spawn(move || {
+        std::thread::sleep(Duration::from_millis(100));
+        sig.stop();
+        f2.store(true, Ordering::SeqCst);
+        if let Some(w) = s2.lock().unwrap().take() { w.wake(); }
+    });
+    let r = el.block_on(ReadyWhen(flag, slot), &mut (), |_| {}).unwrap();
+    assert_eq!(r, None, "stop() was requested before the wake, block_on must return None");
+    // from a source callback of the loop itself
+    let mut el: EventLoop<()> = EventLoop::try_new().unwrap();
+    let sig = el.get_signal();
+    let (flag, slot) = (Arc::new(AB::new(false)), Arc::new(std::sync::Mutex::new(None::<std::task::Waker>)));
+    let (f2, s2) = (flag.clone(), slot.clone());
+    el.handle().insert_source(calloop::timer::Timer::from_duration(Duration::from_millis(30)), move |_, _, _| {
+        sig.stop();
+        f2.store(true, Ordering::SeqCst);
+        if let Some(w) = s2.lock().unwrap().take() { w.wake(); }
+        calloop::timer::TimeoutAction::Drop
+    }).unwrap();
+    let r = el.block_on(ReadyWhen(flag, slot), &mut (), |_| {}).unwrap();
+    assert_eq!(r, None, "stop() requested from a callback before the wake: None");
+}
